@@ -511,11 +511,12 @@ FinalOf(i) ==
   CASE Op(i) \in {"then_inline", "then_exec"} -> (i \o "_next") :> "v1"
     [] Op(i) = "share" -> (i \o "_share") :> Payload
     [] Op(i) = "whenall" -> (i \o "_when") :> Payload      \* the copy WhenAll retired from the shared state (monitors only)
+    [] Op(i) = "await2" -> (i \o "_await") :> "ready"      \* a coroutine awaiting this copy + a ready SharedFuture (monitors only)
     [] OTHER -> <<>>
 RECURSIVE FinalAll(_)
 FinalAll(S) == IF S = {} THEN [live |-> "0", read_moved |-> "0"]
                ELSE LET i == CHOOSE x \in S : TRUE
-                    IN  IF Op(i) \in {"then_inline", "then_exec", "share", "whenall"} THEN FinalOf(i) @@ FinalAll(S \ {i})
+                    IN  IF Op(i) \in {"then_inline", "then_exec", "share", "whenall", "await2"} THEN FinalOf(i) @@ FinalAll(S \ {i})
                         ELSE FinalAll(S \ {i})
 ExpectedFinal == FinalAll(Obs)
 =============================================================================
